@@ -221,7 +221,7 @@ def plan_name(tier):
 
 
 def shards(tier):
-    return [dict(s, tier=tier) for s in layers.shards(plan_name(tier), ('args',))]
+    return [dict(s, tier=tier) for s in layers.shards(plan_name(tier), ('args', 'sibs'))]
 
 
 def prepare(tier):
@@ -255,7 +255,7 @@ SIGNATURES = {}
 
 def coverage(tier, total):
     return {
-        'rule': 'every L_wf document of (%s) and of the argument layer; every non-root node and every text leaf of a plain '
+        'rule': 'every L_wf document of (%s) , of the argument layer and of the sibling layer (4-8 siblings); every non-root node and every text leaf of a plain '
                 'body as target of delete / replace_with (lists %r) / parent.replace / parent.remove; every container (root, '
                 'environments, math, groups, items; argument groups of commands through the expression API) x every '
                 'insertion index 0..len+1 and append; each on a fresh parse.  distinct = distinct (document, edit)' % (
